@@ -1,0 +1,30 @@
+//go:build verif
+
+package proxy
+
+import (
+	"reservoir/cache"
+)
+
+// Accessors for the model-based verification harness (build tag "verif" only).
+
+// VerifCache exposes the proxy's cache through the verification interface.
+func (p *Proxy) VerifCache() cache.VerifCache {
+	vc, _ := p.cache.(cache.VerifCache)
+	return vc
+}
+
+// VerifDelete removes one entry, as an eviction or a cleanup would.
+func (p *Proxy) VerifDelete(key cache.CacheKey) error {
+	return p.cache.Delete(key)
+}
+
+// VerifHas reports whether the key currently has an entry, without touching it.
+func (p *Proxy) VerifHas(key cache.CacheKey) bool {
+	vc := p.VerifCache()
+	if vc == nil {
+		return false
+	}
+	_, ok := vc.VerifSnapshot()[key.Hex]
+	return ok
+}
